@@ -63,7 +63,14 @@ def analyse_unit(run, u, rule_ro, per_policy):
                 if ex:
                     continue
             bad.append(w)
+        # "every call returns what it would return single-threaded": state consulted on the call path is the same for every thread
+        tls = sorted({fn for fn in e.funcs if fn.startswith("thread-local wrapper routine for ") or fn.startswith("thread-local initialization routine for ")})
+        for fn in tls:
+            obj = re.sub(r"^thread-local (wrapper|initialization) routine for ", "", fn)
+            run.violation(rule_ro, "thread-local|%s" % re.sub(r"<.*", "", obj)[:120], "the call path consults the thread-local object %s: a call made on another thread than the one that set it up does not return the sequential answer" % obj[:160], f.where())
         for s in e.stops:
+            if tls and s["kind"] == "indirect" and s["fn"].startswith("thread-local"):
+                continue
             if s["kind"] == "indirect" and "::operator()(" not in s["fn"]:
                 run.broken.append("indirect call outside method::operator() on the call path: %s @ %s" % (s["fn"][:120], s["where"]))
         what = "%s %s" % (kind, f.dname)
